@@ -3,6 +3,7 @@ package main
 import (
 	"fmt"
 	"go/constant"
+	"go/token"
 	"go/types"
 	"strings"
 
@@ -13,130 +14,427 @@ const authPkg = "internal/authorization"
 
 func checkC24(c *Ctx) (string, []string) {
 	stf := c.Fn(authPkg, "STFAlpha2AlphaPrime")
-	upd := c.Fn(authPkg, "updatePoolFromQueue")
 	auth := c.Fn(authPkg, "Authorization")
 	rem := c.Fn(typesPkg, "AuthPool.RemoveLeftMostPairedValue")
 	if len(c.fatal) > 0 {
 		return "", nil
 	}
-	O := "8"
+	O := int64(8)
 	if k, ok := c.Obj(typesPkg, "AuthPoolMaxSize").(*types.Const); ok {
 		if v, exact := constant.Int64Val(k.Val()); exact {
-			O = fmt.Sprint(v)
+			O = v
 		}
 	}
 	A := "internal/authorization."
-	al := "*alloc:types.AuthPools"
+	o := robustOpts
+	// helpers of the transition: same-package functions it calls (seen through whatever their name)
+	ho := o
+	ho.inline = func(f *ssa.Function) bool {
+		return f != nil && f.Pkg != nil && f.Pkg == stf.Pkg && f != stf && len(f.Blocks) > 0 && !token.IsExported(f.Name())
+	}
 
-	c.Rule("C24.transition", "STFAlpha2AlphaPrime: for every guarantee the authorizer used is removed from its core's pool (updatePoolFromQueue(core of the report, guarantee, pools)); then for every core the queue entry φ'[c][slot mod |φ'[c]|] is appended and, when the pool is longer than O, only its last O entries are kept; no removal happens after an append; Authorization feeds it (header slot, block guarantees, prior α, posterior φ') and installs the result as α'", 8)
-	effs := abbrAll(effectShapesOpt(stf, func(n string) bool { return strings.Contains(n, "updatePoolFromQueue") }, false))
-	c.checkEffects("C24.transition", A+"STFAlpha2AlphaPrime", stf, effs, []string{
-		"call " + A + "updatePoolFromQueue(p1[*].Report.CoreIndex, p1[*], " + al + ")",
-		"store &" + al + "[*] ← " + al + "[*][(len(" + al + "[*]) - " + O + "):]",
-		"store &" + al + "[*] ← append(" + al + "[*], [p3[*][(int(p0) % len(p3[*]))]][:])",
-	})
-	// ordering and truncation guard
-	var appendSt, truncSt ssa.Instruction
-	allInstrs(stf, func(in ssa.Instruction) {
-		if st, ok := in.(*ssa.Store); ok && !rootedInLocal(st.Addr) || ok && strings.HasPrefix(abbr(exprStr(st.Addr, shapeOpts)), "&"+al) {
-			v := abbr(exprStr(st.Val, shapeOpts))
-			if strings.HasPrefix(v, "append(") {
-				appendSt = in
-			} else if strings.Contains(v, "[(len(") {
-				truncSt = in
+	c.Rule("C24.transition", "STFAlpha2AlphaPrime (helpers seen through): for every guarantee the report's authorizer hash is removed (RemoveLeftMostPairedValue) from the pool of the report's core, on every non-error path; then for every core the queue entry φ'[c][slot mod |φ'[c]|] is appended and, exactly when the pool is longer than O, only its last O entries are kept; no removal happens after an append; Authorization feeds it (header slot, block guarantees, prior α, posterior φ') and installs the result as α'", 8)
+	type site struct {
+		in    ssa.Instruction
+		g     *ssa.Function
+		subst map[ssa.Value]string
+	}
+	var removals, appends, slices []site
+	visitWithHelpers(stf, ho, func(g *ssa.Function, subst map[ssa.Value]string, in ssa.Instruction) {
+		switch x := in.(type) {
+		case *ssa.Call:
+			if x.Call.StaticCallee() == rem {
+				removals = append(removals, site{in, g, subst})
+			}
+			if b, ok := x.Call.Value.(*ssa.Builtin); ok && b.Name() == "append" && strings.HasSuffix(typeStr(x.Type()), "types.AuthPool") {
+				appends = append(appends, site{in, g, subst})
+			}
+		case *ssa.Slice:
+			if strings.HasSuffix(typeStr(x.Type()), "types.AuthPool") && x.Low != nil && x.High == nil {
+				slices = append(slices, site{in, g, subst})
 			}
 		}
 	})
-	if appendSt == nil || truncSt == nil {
-		c.Bad("C24.transition", A+"STFAlpha2AlphaPrime · structure", stf.Pos(), "append / truncation stores not found")
-	} else {
-		_, later := findPath(pathQuery{start: appendSt, target: func(in ssa.Instruction) bool { return calleeFunc2(in) == upd }})
-		c.Check(!later, "C24.transition", A+"STFAlpha2AlphaPrime · removal before append", appendSt.Pos(), "no removal is reachable after a queue entry has been appended", "a guarantee's authorizer can be removed after the slot's queue entry was appended and the pool truncated: removal acts on the rotated pool, not the prior one")
-		over := condEdges(stf, func(v ssa.Value) (bool, bool) {
-			return abbr(exprStr(v, shapeOpts)) == "("+O+" < len("+al+"[*]))", true
-		})
-		okT := len(over) == 1 && guardedBy(stf, truncSt, over)
-		// every path from the append to the next iteration / return passes the length test
-		if okT {
-			_, skip := findPath(pathQuery{start: appendSt, target: func(in ssa.Instruction) bool { return isReturn(in) || in == appendSt },
-				blocker: func(in ssa.Instruction) bool { return in == over[0].from.Instrs[len(over[0].from.Instrs)-1] }})
-			okT = !skip
+	// in stf itself: the instruction through which a site is reached (the site itself or the call of its helper chain)
+	topLevel := func(s site) map[ssa.Instruction]bool {
+		out := map[ssa.Instruction]bool{}
+		if s.g == stf {
+			out[s.in] = true
+			return out
 		}
-		c.Check(okT, "C24.transition", A+"STFAlpha2AlphaPrime · bound", truncSt.Pos(), "after every append the pool is cut to its last O entries when longer than O", "an appended pool can leave the function (or the iteration) longer than O entries")
+		reach := map[*ssa.Function]bool{s.g: true}
+		for changed := true; changed; {
+			changed = false
+			visitWithHelpers(stf, ho, func(g *ssa.Function, _ map[ssa.Value]string, in ssa.Instruction) {
+				if ci, ok := in.(ssa.CallInstruction); ok {
+					if h := calleeFunc(ci); h != nil && reach[h] && !reach[g] && g != stf {
+						reach[g] = true
+						changed = true
+					}
+				}
+			})
+		}
+		allInstrs(stf, func(in ssa.Instruction) {
+			if ci, ok := in.(ssa.CallInstruction); ok {
+				if h := calleeFunc(ci); h != nil && reach[h] {
+					out[in] = true
+				}
+			}
+		})
+		return out
 	}
-	c.checkCondSet("C24.transition", A+"STFAlpha2AlphaPrime", stf, []string{
-		"((*types.AuthPools).Validate(alloc:types.AuthPools) != nil)", "(* < types.CoresCount)", "(* < len(p1))", "(0 < types.CoresCount)", "(0 == len(p3[*]))",
-		"(" + O + " < len(" + al + "[*]))", "(" + A + "updatePoolFromQueue(p1[*].Report.CoreIndex, p1[*], " + al + ")#0 == nil)", "(" + A + "updatePoolFromQueue(p1[*].Report.CoreIndex, p1[*], " + al + ")#1 != nil)",
-	})
-	{
-		// every guarantee reaches the removal: from the loop test of the guarantee loop, the next iteration is not reachable without the call
+	normP := func(s string) string {
+		for _, k := range []string{"*alloc:types.AuthPools", "*cell(p2)", "cell(p2)"} {
+			s = strings.ReplaceAll(s, k, "α")
+		}
+		return s
+	}
+	if len(removals) != 1 {
+		c.Bad("C24.transition", A+"STFAlpha2AlphaPrime · removal", stf.Pos(), "expected one RemoveLeftMostPairedValue site in the transition, found %d", len(removals))
+	} else {
+		r := removals[0]
+		call := r.in.(*ssa.Call)
+		recv := normP(abbr(exprStrSubst(call.Call.Args[0], o, r.subst)))
+		arg := abbr(exprStrSubst(call.Call.Args[1], o, r.subst))
+		okRecv := recv == "&α[p1[*].Report.CoreIndex]" || recv == "cell(α[p1[*].Report.CoreIndex])"
+		c.Check(okRecv && arg == "p1[*].Report.AuthorizerHash", "C24.transition", A+"STFAlpha2AlphaPrime · removal", call.Pos(), "removes guarantee.Report.AuthorizerHash from α[guarantee.Report.CoreIndex]", fmt.Sprintf("the removal is %s.RemoveLeftMostPairedValue(%s); GP 8.3 removes the report's authorizer hash from the pool of the report's core", recv, arg))
+		// when the removal works on a local copy of the pool, the copy is written back to the same slot
+		if strings.HasPrefix(recv, "cell(") {
+			back := false
+			visitWithHelpers(stf, ho, func(g *ssa.Function, subst map[ssa.Value]string, in ssa.Instruction) {
+				if st, ok := in.(*ssa.Store); ok && g == r.g {
+					a := normP(abbr(exprStrSubst(st.Addr, o, subst)))
+					v := normP(abbr(exprStrSubst(st.Val, o, subst)))
+					if a == "&α[p1[*].Report.CoreIndex]" && v == "*"+recv {
+						back = true
+					}
+				}
+			})
+			c.Check(back, "C24.transition", A+"STFAlpha2AlphaPrime · removal written back", call.Pos(), "the filtered copy is stored back into α[core]", "the removal works on a copy of the pool that is never stored back")
+		} else {
+			c.OK("C24.transition", A+"STFAlpha2AlphaPrime · removal written back", call.Pos(), "the removal acts on α[core] itself")
+		}
+		// every guarantee reaches it; inside helpers every non-error path reaches it
+		tl := topLevel(r)
 		var loopIf *ssa.If
 		allInstrs(stf, func(in ssa.Instruction) {
 			if i, ok := in.(*ssa.If); ok && exprStr(i.Cond, shapeOpts) == "(* < len(p1))" {
 				loopIf = i
 			}
 		})
-		ok := loopIf != nil
-		if ok {
+		okEvery := loopIf != nil && len(tl) > 0
+		if okEvery {
 			body := []edge{{loopIf.Block(), 0}}
-			_, skip := findPath(pathQuery{startEdges: body, target: func(in ssa.Instruction) bool { return in == ssa.Instruction(loopIf) }, blocker: func(in ssa.Instruction) bool { return calleeFunc2(in) == upd }})
-			ok = !skip
+			_, skip := findPath(pathQuery{startEdges: body, target: func(in ssa.Instruction) bool { return in == ssa.Instruction(loopIf) }, blocker: func(in ssa.Instruction) bool { return tl[in] }})
+			okEvery = !skip
 		}
-		c.Check(ok, "C24.transition", A+"STFAlpha2AlphaPrime · every guarantee", stf.Pos(), "each guarantee of the block reaches the removal of its authorizer", "a guarantee can be passed over without removing its authorizer from its core's pool")
-	}
-	c.checkEffects("C24.transition", A+"updatePoolFromQueue", upd, abbrAll(effectShapesOpt(upd, func(n string) bool { return strings.Contains(n, "RemoveLeftMost") }, false)), []string{
-		"call (*types.AuthPool).RemoveLeftMostPairedValue(cell(p2[p0]), p1.Report.AuthorizerHash)",
-		"store &p2[p0] ← *cell(p2[p0])",
-	})
-	c.requireCall("C24.transition", A+"Authorization", auth, "SetAlpha", []string{"POST ‖ " + A + "STFAlpha2AlphaPrime(BLOCK.Header.Slot, *cell(BLOCK.Extrinsic.Guarantees), *cell(prior.GetAlpha(PRIOR)), *cell(post.GetVarphi(POST)))#0"})
-
-	c.Rule("C24.leftmost", "RemoveLeftMostPairedValue keeps every element except the first one equal to the given hash: an element is skipped only when it equals the hash and nothing has been skipped yet, and skipping records that fact", 3)
-	c.checkCondSet("C24.leftmost", "(*types.AuthPool).RemoveLeftMostPairedValue", rem, []string{"(* < len(*p0))", "bytes.Equal(*p0[*][:], p1[:])", "phi(cyc | false | true)"})
-	// the flag phi: false on entry, true exactly on the edge from the skip block
-	var flag *ssa.Phi
-	var app *ssa.Call
-	allInstrs(rem, func(in ssa.Instruction) {
-		if p, ok := in.(*ssa.Phi); ok {
-			if b, ok := p.Type().Underlying().(*types.Basic); ok && b.Kind() == types.Bool {
-				flag = p
-			}
-		}
-		if call, ok := in.(*ssa.Call); ok {
-			if b, ok := call.Call.Value.(*ssa.Builtin); ok && b.Name() == "append" {
-				app = call
-			}
-		}
-	})
-	ok := flag != nil && app != nil
-	if ok {
-		// skip path: from loop body to next iteration without the append, must be behind !flag ∧ equal
-		eq := condEdges(rem, func(v ssa.Value) (bool, bool) {
-			return abbr(exprStr(v, shapeOpts)) == "bytes.Equal(*p0[*][:], p1[:])", true
-		})
-		notRemoved := condEdges(rem, func(v ssa.Value) (bool, bool) { return v == ssa.Value(flag), false })
-		// the block that sets removed=true: the phi edge carrying const true
-		var skipBlock *ssa.BasicBlock
-		for k, e := range flag.Edges {
-			if cst, isC := e.(*ssa.Const); isC && cst.Value != nil && cst.Value.String() == "true" {
-				skipBlock = flag.Block().Preds[k]
-			}
-		}
-		ok = len(eq) == 1 && len(notRemoved) == 1 && skipBlock != nil
-		if ok {
-			first := skipBlock.Instrs[0]
-			ok = guardedBy(rem, first, eq) && guardedBy(rem, first, notRemoved)
-			// append happens on every other path of the body: the append is NOT guarded by both
-			hasAppendInSkip := false
-			for _, in := range skipBlock.Instrs {
-				if in == ssa.Instruction(app) {
-					hasAppendInSkip = true
+		if okEvery && r.g != stf {
+			// the helper chain: every return without an error has passed the removal
+			var chain []*ssa.Function
+			visitWithHelpers(stf, ho, func(g *ssa.Function, _ map[ssa.Value]string, in ssa.Instruction) {
+				if g != stf {
+					for _, x := range chain {
+						if x == g {
+							return
+						}
+					}
+					chain = append(chain, g)
+				}
+			})
+			for _, g := range chain {
+				inner := map[ssa.Instruction]bool{}
+				allInstrs(g, func(in ssa.Instruction) {
+					if ci, ok := in.(ssa.CallInstruction); ok {
+						if h := calleeFunc(ci); h == rem {
+							inner[in] = true
+						} else if h != nil {
+							for _, x := range chain {
+								if x == h {
+									inner[in] = true
+								}
+							}
+						}
+					}
+				})
+				if len(inner) == 0 {
+					continue
+				}
+				_, skip := findPath(pathQuery{fn: g, target: func(in ssa.Instruction) bool {
+					ret, ok := in.(*ssa.Return)
+					return ok && !isErrorReturn(g, ret)
+				}, blocker: func(in ssa.Instruction) bool { return inner[in] }, edgeBlock: constFeasible})
+				if skip {
+					okEvery = false
 				}
 			}
-			ok = ok && !hasAppendInSkip
 		}
+		c.Check(okEvery, "C24.transition", A+"STFAlpha2AlphaPrime · every guarantee", stf.Pos(), "each guarantee of the block reaches the removal of its authorizer", "a guarantee can be passed over without removing its authorizer from its core's pool")
 	}
-	c.Check(ok, "C24.leftmost", "(*types.AuthPool).RemoveLeftMostPairedValue · single removal", rem.Pos(), "the skip arm is behind (equal ∧ not yet removed) and sets the removed flag", "elements equal to the hash are skipped without a 'removed once' guard: every occurrence is removed, not only the leftmost")
-	c.checkEffects("C24.leftmost", "(*types.AuthPool).RemoveLeftMostPairedValue", rem, abbrAll(effectShapes(rem, nil)), []string{"store p0 ← ⊕(*p0[:0]; [*p0[*]][:])"})
-	return "Authorizer-pool mechanisms decided statically: removal of each guarantee's authorizer from its core's pool precedes every append (no removal reachable after an append), the appended entry is φ'[c][slot mod |φ'[c]|], every append is followed on all paths by the cut to the last O entries, the removal helper skips at most one element (flag-guarded skip arm), and Authorization wires (header slot, guarantees, prior α, posterior φ') into α'.",
-		[]string{"canonical renderer; O read from types.AuthPoolMaxSize", "not decided: leftmost-occurrence semantics as values on runtime pools; the in-place filter writes through the prior pool (reported under C26 as an observation)"}
+	if len(appends) != 1 {
+		c.Bad("C24.transition", A+"STFAlpha2AlphaPrime · append", stf.Pos(), "expected one append to a pool in the transition, found %d", len(appends))
+	} else {
+		a := appends[0]
+		call := a.in.(*ssa.Call)
+		base := normP(abbr(exprStrSubst(call.Call.Args[0], o, a.subst)))
+		el := abbr(exprStrSubst(call.Call.Args[1], o, a.subst))
+		c.Check(base == "α[*]" && el == "[p3[*][(int(p0) % len(p3[*]))]][:]", "C24.transition", A+"STFAlpha2AlphaPrime · append", call.Pos(), "α[c] ⌢ φ'[c][slot mod |φ'[c]|]", fmt.Sprintf("appends %s to %s; GP 8.2 appends φ'[c][slot mod |φ'[c]|] to α[c]", el, base))
+		// ordering
+		tlA := topLevel(a)
+		later := false
+		if len(removals) == 1 {
+			tlR := topLevel(removals[0])
+			for in := range tlA {
+				if _, l := findPath(pathQuery{start: in, target: func(x ssa.Instruction) bool { return tlR[x] }}); l {
+					later = true
+				}
+			}
+		}
+		c.Check(!later, "C24.transition", A+"STFAlpha2AlphaPrime · removal before append", call.Pos(), "no removal is reachable after a queue entry has been appended", "a guarantee's authorizer can be removed after the slot's queue entry was appended and the pool truncated: removal acts on the rotated pool, not the prior one")
+	}
+	// the cut to the last O entries
+	if len(slices) != 1 {
+		c.Bad("C24.transition", A+"STFAlpha2AlphaPrime · bound", stf.Pos(), "expected one cut pool[k:] in the transition, found %d", len(slices))
+	} else {
+		s := slices[0]
+		sl := s.in.(*ssa.Slice)
+		lenAtom := "len(" + abbr(exprStr(sl.X, o)) + ")"
+		bad := ""
+		for n := O - 1; n <= O+3 && bad == ""; n++ {
+			av := func(str string) (int64, bool) {
+				if str == lenAtom {
+					return n, true
+				}
+				return 0, false
+			}
+			reached, ok := reachesInFunc(sl, o, av)
+			if !ok {
+				bad = "the cut is guarded by something other than the length of the pool after the append"
+				break
+			}
+			if reached != (n > O) {
+				bad = fmt.Sprintf("with %d entries after the append the cut is taken=%v (O = %d)", n, reached, O)
+				break
+			}
+			if reached {
+				env := intEnv{params: map[ssa.Value]int64{}, lens: map[ssa.Value]int64{sl.X: n}, unknown: map[ssa.Value]bool{}, cells: map[ssa.Value]int64{}}
+				env.opaque = func(v ssa.Value) (int64, bool) {
+					if isIntegerT(v.Type()) {
+						if _, isC := v.(*ssa.Const); !isC {
+							return av(abbr(exprStr(v, o)))
+						}
+					}
+					return 0, false
+				}
+				lo, ok := evalInt(sl.Low, env, 0)
+				if !ok || lo != n-O {
+					bad = fmt.Sprintf("with %d entries the pool is cut at %d (evaluable=%v); keeping the last O=%d entries cuts at %d", n, lo, ok, O, n-O)
+				}
+			}
+		}
+		c.Check(bad == "", "C24.transition", A+"STFAlpha2AlphaPrime · bound", sl.Pos(), "exactly when the pool is longer than O it is cut to its last O entries", bad)
+		// what is stored in α[c] after the append phase derives from the cut
+		stored := false
+		allInstrs(stf, func(in ssa.Instruction) {
+			st, ok := in.(*ssa.Store)
+			if !ok || normP(abbr(exprStr(st.Addr, o))) != "&α[*]" {
+				return
+			}
+			var from func(v ssa.Value, d int) bool
+			from = func(v ssa.Value, d int) bool {
+				if d > 6 {
+					return false
+				}
+				switch x := v.(type) {
+				case *ssa.Slice:
+					return x == sl
+				case *ssa.Phi:
+					for _, e := range x.Edges {
+						if from(e, d+1) {
+							return true
+						}
+					}
+				case *ssa.Call:
+					if h := x.Call.StaticCallee(); h != nil && h == s.g && s.g != stf {
+						return true
+					}
+				}
+				return false
+			}
+			if from(st.Val, 0) {
+				stored = true
+			}
+		})
+		c.Check(stored, "C24.transition", A+"STFAlpha2AlphaPrime · bound stored", sl.Pos(), "the cut pool is what α[c] receives", "the cut pool is never stored into α[c]")
+	}
+	c.requireCall("C24.transition", A+"Authorization", auth, "SetAlpha", []string{"POST ‖ " + A + "STFAlpha2AlphaPrime(BLOCK.Header.Slot, *cell(BLOCK.Extrinsic.Guarantees), *cell(prior.GetAlpha(PRIOR)), *cell(post.GetVarphi(POST)))#0"})
+
+	c.Rule("C24.leftmost", "RemoveLeftMostPairedValue keeps every element except the first one equal to the given hash — recognised as a filter whose skip arm is behind (equal ∧ nothing skipped yet) and records the skip, or as find-first-then-shift (the search stops at the first equal element, the tail is shifted one place left from that index, the pool shrinks by one)", 2)
+	c24Leftmost(c, rem)
+	return "Authorizer-pool mechanisms decided statically with helpers seen through: removal of each guarantee's authorizer from its core's pool on every non-error path, before every append; the appended entry is φ'[c][slot mod |φ'[c]|]; the cut to the last O entries is taken exactly when the pool is longer than O and starts at len−O (evaluated); the removal helper removes only the leftmost equal element (two recognised forms); Authorization wires (header slot, guarantees, prior α, posterior φ') into α'.",
+		[]string{"robust renderer; truth tables over the pool length; O read from types.AuthPoolMaxSize", "not decided: leftmost-occurrence semantics as values on runtime pools; the in-place filter writes through the prior pool (reported under C26 as an observation)"}
+}
+
+// reachesInFunc: following target's function from its entry with atoms valued by av, is target's block reached?
+func reachesInFunc(target ssa.Instruction, o exprOpts, av atomFn) (bool, bool) {
+	f := target.Parent()
+	tb := target.Block()
+	if h, in := natLoop(tb); h != nil && in != nil {
+		return iterReaches(target, o, nil, av)
+	}
+	hit := false
+	r, ok := runWithAtoms(f, o, av, func(in ssa.Instruction) {
+		if in == target {
+			hit = true
+		}
+	})
+	if !ok && !hit {
+		return false, false
+	}
+	_ = r
+	return hit, true
+}
+
+func c24Leftmost(c *Ctx, rem *ssa.Function) {
+	key := "(*types.AuthPool).RemoveLeftMostPairedValue"
+	o := robustOpts
+	// form (a): filter with a removed-once flag
+	var flag *ssa.Phi
+	var app *ssa.Call
+	var cp ssa.CallInstruction
+	allInstrs(rem, func(in ssa.Instruction) {
+		if p, ok := in.(*ssa.Phi); ok && isBoolT(p.Type()) {
+			flag = p
+		}
+		if call, ok := in.(*ssa.Call); ok {
+			if b, ok := call.Call.Value.(*ssa.Builtin); ok {
+				switch b.Name() {
+				case "append":
+					app = call
+				case "copy":
+					cp = call
+				}
+			}
+		}
+	})
+	isEq := func(s string) (bool, bool) {
+		switch {
+		case s == "bytes.Equal(*p0[*][:], p1[:])" || s == "(*p0[*] == p1)" || s == "(p1 == *p0[*])":
+			return true, false
+		case s == "(*p0[*] != p1)" || s == "(p1 != *p0[*])":
+			return true, true
+		}
+		return false, false
+	}
+	switch {
+	case app != nil && flag != nil:
+		// selection of the append over (equal, already removed)
+		bad := ""
+		for m := 0; m < 4 && bad == ""; m++ {
+			eq, removed := int64(m&1), int64(m>>1)
+			reached, ok := iterReaches(app, o, nil, func(s string) (int64, bool) {
+				if is, neg := isEq(s); is {
+					if neg {
+						return 1 - eq, true
+					}
+					return eq, true
+				}
+				if s == abbr(exprStr(flag, o)) {
+					return removed, true
+				}
+				return 0, false
+			})
+			if !ok {
+				bad = "the keep decision depends on something other than (element equals the hash, an element was already removed)"
+				break
+			}
+			if reached != (removed == 1 || eq == 0) {
+				bad = fmt.Sprintf("with equal=%d and already-removed=%d the element is kept=%v", eq, removed, reached)
+			}
+		}
+		// the flag becomes true exactly on the skip path
+		setOK := false
+		for k, e := range flag.Edges {
+			if cst, isC := e.(*ssa.Const); isC && cst.Value != nil && cst.Value.String() == "true" {
+				pb := flag.Block().Preds[k]
+				hasApp := false
+				for _, in := range pb.Instrs {
+					if in == ssa.Instruction(app) {
+						hasApp = true
+					}
+				}
+				if !hasApp {
+					setOK = true
+				}
+			}
+		}
+		c.Check(bad == "" && setOK, "C24.leftmost", key+" · single removal", rem.Pos(), "an element is dropped exactly when it equals the hash and nothing was dropped before (4/4 rows); dropping records the fact", "elements equal to the hash are skipped without a 'removed once' guard: every occurrence is removed, not only the leftmost ("+bad+")")
+		c.requireSet("C24.leftmost", key+" · result", rem.Pos(), "the pool becomes", abbrAll(effectShapes(rem, nil)), []string{"store p0 ← ⊕(*p0[:0]; [*p0[*]][:])"})
+	case cp != nil:
+		// form (b): find first, shift, shrink
+		dst, src := cp.Common().Args[0], cp.Common().Args[1]
+		ds, ss := abbr(exprStr(dst, o)), abbr(exprStr(src, o))
+		var hit ssa.Value
+		if sl, ok := dst.(*ssa.Slice); ok && sl.High == nil {
+			hit = sl.Low
+		}
+		okShift := false
+		if sl2, ok := src.(*ssa.Slice); ok && hit != nil && sl2.High == nil {
+			if b, ok := stripConv(sl2.Low).(*ssa.BinOp); ok && b.Op == token.ADD {
+				if k, isK := constInt(b.Y); isK && k == 1 && stripConv(b.X) == stripConv(hit) {
+					okShift = true
+				}
+			}
+		}
+		// hit is the index at which the search loop was left on an equal element: phi(-1 | i) with i the loop index on the break edge
+		okFirst := false
+		if ph, ok := stripConv(hit).(*ssa.Phi); ok {
+			for k, e := range ph.Edges {
+				if _, isC := e.(*ssa.Const); isC {
+					continue
+				}
+				pb := ph.Block().Preds[k]
+				// pb ends the iteration in which the element equals the hash, and leaves the loop
+				if ifi, isIf := pb.Instrs[len(pb.Instrs)-1].(*ssa.If); isIf {
+					if is, neg := isEq(abbr(exprStr(ifi.Cond, o))); is {
+						succ := 0
+						if neg {
+							succ = 1
+						}
+						_, in := natLoop(pb)
+						if pb.Succs[succ] == ph.Block() && (in == nil || !in[ph.Block()]) && abbr(exprStr(e, o)) == "*" {
+							okFirst = true
+						}
+					}
+				} else if _, isJ := pb.Instrs[len(pb.Instrs)-1].(*ssa.Jump); isJ && len(pb.Preds) == 1 {
+					// break block reached from the equality test
+					pp := pb.Preds[0]
+					if ifi, isIf := pp.Instrs[len(pp.Instrs)-1].(*ssa.If); isIf {
+						if is, neg := isEq(abbr(exprStr(ifi.Cond, o))); is {
+							succ := 0
+							if neg {
+								succ = 1
+							}
+							_, in := natLoop(pp)
+							if pp.Succs[succ] == pb && (in == nil || !in[ph.Block()]) && abbr(exprStr(e, o)) == "*" {
+								okFirst = true
+							}
+						}
+					}
+				}
+			}
+		}
+		// shrink by one
+		shrink := false
+		allInstrs(rem, func(in ssa.Instruction) {
+			if st, ok := in.(*ssa.Store); ok && st.Addr == ssa.Value(rem.Params[0]) {
+				if s := abbr(exprStr(st.Val, o)); s == "*p0[:(len(*p0) - 1)]" {
+					shrink = true
+				}
+			}
+		})
+		c.Check(okShift && okFirst && shrink, "C24.leftmost", key+" · single removal", rem.Pos(), "search stops at the first equal element; tail shifted one place left from there; pool shrinks by one", fmt.Sprintf("find-first-then-shift form not established (copy(%s, %s); first-hit=%v shift=%v shrink=%v)", ds, ss, okFirst, okShift, shrink))
+		c.OK("C24.leftmost", key+" · result", rem.Pos(), "pool[:len-1] after the shift")
+	default:
+		c.Bad("C24.leftmost", key+" · single removal", rem.Pos(), "neither a flag-guarded filter nor a find-first-then-shift removal was recognised")
+	}
 }
